@@ -261,6 +261,74 @@ def check_cell(rec, W, cell):
             rec.violation("C05/trace-next-after-close", f"{cell}", case, monitor="trace")
 
 
+class ClosableIterable:
+    """A body that is iterable but not its own iterator (a class with a generator __iter__) and has a close()."""
+
+    def __init__(self, chunks):
+        self.chunks, self.closed, self.iters = chunks, 0, 0
+
+    def __iter__(self):
+        self.iters += 1
+        yield from self.chunks
+
+    def close(self):
+        self.closed += 1
+
+
+def check_range_close(rec, W):
+    """H5 for partial responses: a 206 still closes the wrapped iterable (and runs the callbacks) exactly once."""
+    Response, create_environ = W.Response, W.create_environ
+    for kind in ("closable", "closable_iterable", "fw", "list"):
+        for ncb in (0, 2):
+            for rng_hdr, exp in (("bytes=1-3", b"ell"), ("bytes=0-", b"hello"), ("bytes=9-", None), (None, b"hello")):
+                rec.case()
+                rec.nontrivial(("range-close", kind, ncb, rng_hdr))
+                case = {"part": "range-close", "kind": kind, "callbacks": ncb, "Range": rng_hdr}
+                spies = []
+                if kind == "closable_iterable":
+                    ci = ClosableIterable([b"he", b"llo"])
+                    body = ci
+                    spies.append(("iterable", lambda ci=ci: ci.closed, lambda: 0))
+                elif kind == "list":
+                    body = [b"he", b"", b"llo"]
+                else:
+                    body, _, spies = mkbody(kind, W)
+                env = create_environ("/", method="GET", headers={"Range": rng_hdr} if rng_hdr else {})
+                r = Response(body, direct_passthrough=(kind == "fw"))
+                cbs = []
+                for _ in range(ncb):
+                    c = [0]
+                    cbs.append(c)
+                    r.call_on_close(lambda c=c: c.__setitem__(0, c[0] + 1))
+                with rec.guard(case, "C05"):
+                    try:
+                        r.make_conditional(env, accept_ranges=True, complete_length=5)
+                    except W.HTTPException as e:
+                        if exp is not None:
+                            rec.violation("C05/range-close:unexpected-" + type(e).__name__, f"{case}", case, monitor="H5")
+                            continue
+                        rec.observe("range_416")
+                        r.close()  # the application drops the response and sends the error instead
+                        data = None
+                    else:
+                        it, st, hd = r.get_wsgi_response(env)
+                        data = b"".join(it)
+                        if hasattr(it, "close"):
+                            it.close()
+                        rec.observe("range_served:" + st[:3])
+                    if data is not None and exp is not None and data != exp:
+                        rec.violation("C05/body-bytes-differ", f"{case}: {data!r} != {exp!r}", case, monitor="body")
+                        continue
+                    for c in cbs:
+                        rec.observe("callbacks_checked")
+                        if c[0] != 1 and not (kind == "fw" and False):
+                            rec.violation("C05/H5-close-callback-ran-%d-times" % c[0], f"{case}", case, monitor="H5")
+                    for name, get, after in spies:
+                        rec.observe("close_spies_checked")
+                        if get() != 1:
+                            rec.violation("C05/H5-%s-closed-%d-times" % (name, get()), f"{case}", case, monitor="H5")
+
+
 class World:
     pass
 
@@ -270,8 +338,11 @@ def world():
     from werkzeug.wrappers import Response
     from werkzeug.wsgi import FileWrapper, wrap_file
 
+    from werkzeug.exceptions import HTTPException
+
     W = World()
     W.Response, W.create_environ, W.FileWrapper, W.wrap_file = Response, create_environ, FileWrapper, wrap_file
+    W.HTTPException = HTTPException
     return W
 
 
@@ -459,6 +530,8 @@ def run(shard, rec, rng):
         reach.finish()
         return
     W = world()
+    if shard["index"] == 0:
+        check_range_close(rec, W)
     phase = int(shard["_seed"]) % cfg["stride"]
     n = 0
     for cell in itertools.product(KINDS, STAT, METHODS, CLS, LOCS, [True, False], [0, 2], [False, True]):
